@@ -5,6 +5,7 @@ package parser
 
 import (
 	"fmt"
+	"maps"
 	"path/filepath"
 	"slices"
 	"strings"
@@ -963,8 +964,9 @@ func (p *parser) validateStructAlias(aliasTokens []token.Token, fields []*ast.Va
 		}
 	}
 
-	for typ, wasUnified := range genericUnifiedMap {
-		if !wasUnified {
+	// iterate in a fixed order, so that the reported type does not depend on the map order
+	for _, typ := range slices.Sorted(maps.Keys(genericUnifiedMap)) {
+		if wasUnified := genericUnifiedMap[typ]; !wasUnified {
 			err := ddperror.New(ddperror.SEM_UNABLE_TO_UNIFY_FIELD_TYPES, ddperror.LEVEL_ERROR,
 				token.NewRange(&aliasTokens[len(aliasTokens)-1], &aliasTokens[len(aliasTokens)-1]),
 				fmt.Sprintf("Der generische Typ %s konnte nicht unifiziert werden", typ),
